@@ -30,6 +30,8 @@
 #include <ompl/base/DiscreteMotionValidator.h>
 #include <ompl/base/objectives/MaximizeMinClearanceObjective.h>
 #include <ompl/base/objectives/StateCostIntegralObjective.h>
+#include <ompl/base/objectives/MechanicalWorkOptimizationObjective.h>
+#include <sstream>
 #include <ompl/geometric/PathHybridization.h>
 #define private public
 #define protected public
@@ -245,6 +247,22 @@ private:
     int kind_;
 };
 
+// ASYMMETRIC objective: mechanical work over the height field h = second real (y), path-length weight 0.05:
+// motionCost(a, b) = max(h(b) - h(a), 0) + 0.05 * distance(a, b)  (climbing costs, descending is free)
+class WorkObjective : public ob::MechanicalWorkOptimizationObjective
+{
+public:
+    WorkObjective(const ob::SpaceInformationPtr &si) : ob::MechanicalWorkOptimizationObjective(si, 0.05)
+    {
+    }
+    ob::Cost stateCost(const ob::State *s) const override
+    {
+        std::vector<double> r;
+        si_->getStateSpace()->copyToReals(r, s);
+        return ob::Cost(r.size() > 1 ? r[1] : 0.0);
+    }
+};
+
 struct Ctx
 {
     ob::StateSpacePtr space;
@@ -270,6 +288,8 @@ static ob::OptimizationObjectivePtr makeObj(const Ctx &c, const std::string &o)
         return std::make_shared<TollObjective>(c.si, 1, o == "stepi");
     if (o == "checker")
         return std::make_shared<TollObjective>(c.si, 2, false);
+    if (o == "work")
+        return std::make_shared<WorkObjective>(c.si);
     throw vp::ParseError("objective " + o);
 }
 
@@ -522,6 +542,186 @@ int main()
                 continue;
             }
 
+            if (op == "pg")
+            {
+                // the remaining PathGeometric methods on a fresh copy of the current path:
+                //   pg reverse | prepend <state> | append <state> | appendpath <n> <state>*n | keepafter <state> | keepbefore <state>
+                //      | closest <state> | overlay <start> <n> <state>*n | copies | metrics | print | random | randomvalid <attempts> | clear
+                // answers `pg <ret> out <k> <state>*k [vals <bits>*]`
+                if (t.size() < 2)
+                    throw vp::ParseError("pg");
+                const std::string &m = t[1];
+                og::PathGeometric p(c.si);
+                fillPath(c, c.path, p);
+                long ret = -1;
+                std::string vals;
+                ob::State *arg = c.si->allocState();
+                auto parseArg = [&](size_t at) {
+                    size_t i = at;
+                    vp::parseStateInto(c.space.get(), arg, t, i);
+                    return i;
+                };
+                c.mv->rec = false;
+                if (m == "reverse" && t.size() == 2)
+                    p.reverse();
+                else if (m == "prepend" && parseArg(2) == t.size())
+                    p.prepend(arg);
+                else if (m == "append" && parseArg(2) == t.size())
+                    p.append(arg);
+                else if (m == "keepafter" && parseArg(2) == t.size())
+                    p.keepAfter(arg);
+                else if (m == "keepbefore" && parseArg(2) == t.size())
+                    p.keepBefore(arg);
+                else if (m == "closest" && parseArg(2) == t.size())
+                    ret = p.getClosestIndex(arg);
+                else if (m == "appendpath" || m == "overlay")
+                {
+                    size_t i = 2;
+                    unsigned long long start = 0;
+                    if (m == "overlay")
+                        start = vp::needN(t, i);
+                    std::vector<std::vector<std::string>> sts;
+                    if (!takeStates(c, t, i, sts) || i != t.size())
+                        throw vp::ParseError("states");
+                    og::PathGeometric q(c.si);
+                    fillPath(c, sts, q);
+                    if (m == "appendpath")
+                        p.append(q);
+                    else
+                    {
+                        try
+                        {
+                            p.overlay(q, (unsigned int)start);
+                            ret = 0;
+                        }
+                        catch (const ompl::Exception &)
+                        {
+                            ret = 1;   // "Index on path is out of bounds"
+                        }
+                    }
+                }
+                else if (m == "copies" && t.size() == 2)
+                {
+                    og::PathGeometric a(p);          // copy constructor
+                    og::PathGeometric b(c.si);
+                    b = a;                           // assignment
+                    b = b;                           // self-assignment
+                    a.clear();
+                    ret = (long)a.getStateCount();
+                    p = b;
+                }
+                else if (m == "metrics" && t.size() == 2)
+                {
+                    auto lenObj = std::make_shared<ob::PathLengthOptimizationObjective>(c.si);
+                    vals = " vals " + vp::bits(p.length()) + " " + vp::bits(p.cost(lenObj).value()) + " " + vp::bits(p.smoothness()) + " " +
+                           vp::bits(p.clearance());
+                }
+                else if (m == "print" && t.size() == 2)
+                {
+                    std::stringstream ss1, ss2;
+                    p.print(ss1);
+                    p.printAsMatrix(ss2);
+                    long l1 = 0, l2 = 0;
+                    for (char ch : ss1.str())
+                        l1 += ch == '\n';
+                    for (char ch : ss2.str())
+                        l2 += ch == '\n';
+                    ret = l1 * 100000 + l2;
+                }
+                else if (m == "random" && t.size() == 2)
+                    p.random();
+                else if (m == "randomvalid" && t.size() == 3)
+                    ret = p.randomValid((unsigned int)*vp::parseNat(t[2])) ? 1 : 0;
+                else if (m == "clear" && t.size() == 2)
+                    p.clear();
+                else
+                {
+                    c.si->freeState(arg);
+                    throw vp::ParseError("pg method");
+                }
+                c.si->freeState(arg);
+                std::cout << "pg " << ret << " " << showPath(c, p) << vals << " chk " << (p.check() ? 1 : 0) << "\n";
+                continue;
+            }
+            if (op == "chain")
+            {
+                // chain <seed> <obj> <freeStates 0/1> <n> <routine> <args..> ; <routine> <args..> ; …   — ONE PathSimplifier object, ONE path:
+                // the routines are applied one after the other (history); answers `chain` + ` || r <ret> out … cm … cost <before> <after> chk` per step
+                if (t.size() < 6)
+                    throw vp::ParseError("chain");
+                auto seed = vp::parseNat(t[1]);
+                if (!seed)
+                    throw vp::ParseError("seed");
+                ompl::RNG::setSeed((std::uint_fast32_t)(*seed + 1));
+                auto obj = makeObj(c, t[2]);
+                const bool freeSt = t[3] == "1";
+                auto goal = std::make_shared<ob::GoalStates>(c.si);
+                {
+                    ob::State *s = c.si->allocState();
+                    const auto &gs = !c.goals.empty() ? c.goals : c.path.empty() ? std::vector<std::vector<std::string>>{} :
+                                                                                      std::vector<std::vector<std::string>>{c.path.back()};
+                    for (const auto &g : gs)
+                    {
+                        size_t i = 0;
+                        vp::parseStateInto(c.space.get(), s, g, i);
+                        goal->addState(s);
+                    }
+                    c.si->freeState(s);
+                }
+                og::PathGeometric p(c.si);
+                fillPath(c, c.path, p);
+                og::PathSimplifier ps(c.si, goal, obj);
+                ps.freeStates(freeSt);
+                std::string out = "chain";
+                size_t i = 5;
+                vp::g_draws = vp::DrawScript();
+                while (i < t.size())
+                {
+                    size_t j = i;
+                    while (j < t.size() && t[j] != ";")
+                        ++j;
+                    std::vector<std::string> a(t.begin() + i, t.begin() + j);
+                    i = j + 1;
+                    if (a.empty())
+                        continue;
+                    auto N = [&](size_t k2) { auto v = vp::parseNat(a.at(k2)); if (!v) throw vp::ParseError("nat"); return *v; };
+                    auto Fv = [&](size_t k2) { auto v = vp::parseBits(a.at(k2)); if (!v) throw vp::ParseError("float"); return *v; };
+                    double cost0 = p.cost(obj).value();
+                    c.mv->log.clear();
+                    c.mv->rec = true;
+                    int ret = -1;
+                    const std::string &rt = a[0];
+                    if (rt == "reduce") ret = ps.reduceVertices(p, N(1), N(2), Fv(3));
+                    else if (rt == "pshort") ret = ps.partialShortcutPath(p, N(1), N(2), Fv(3), Fv(4));
+                    else if (rt == "collapse") ret = ps.collapseCloseVertices(p, N(1), N(2));
+                    else if (rt == "rope") ret = ps.ropeShortcutPath(p, Fv(1), Fv(2));
+                    else if (rt == "bspline") ps.smoothBSpline(p, N(1), Fv(2));
+                    else if (rt == "perturb") ret = ps.perturbPath(p, Fv(1), N(2), N(3), Fv(4));
+                    else if (rt == "bettergoal")
+                    {
+                        auto cnt = std::make_shared<vp::EvalCounter>();
+                        cnt->fireAt = N(1);
+                        ret = ps.findBetterGoal(p, vp::evalCountPtc(cnt), N(2), Fv(3), Fv(4));
+                    }
+                    else if (rt == "simplify")
+                    {
+                        auto cnt = std::make_shared<vp::EvalCounter>();
+                        cnt->fireAt = N(1);
+                        ret = ps.simplify(p, vp::evalCountPtc(cnt), N(2) != 0);
+                    }
+                    else if (rt == "simplifymax") ret = ps.simplifyMax(p);
+                    else if (rt == "subdivide") p.subdivide();
+                    else if (rt == "interpn") p.interpolate((unsigned int)N(1));
+                    else
+                        throw vp::ParseError("chain routine");
+                    c.mv->rec = false;
+                    out += " || r " + std::to_string(ret) + " " + showPath(c, p) + " " + showCm(c) + " len 0 0 cost " + vp::bits(cost0) + " " +
+                           vp::bits(p.cost(obj).value()) + " chk " + (p.check() ? "1" : "0") + " worse " +
+                           (obj->isCostBetterThan(ob::Cost(cost0), p.cost(obj)) ? "1" : "0");
+                }
+                std::cout << out << "\n";
+                continue;
+            }
             // ---------------- routine ops on a fresh copy of the current path
             std::vector<std::string> a(t.begin(), t.end());
             bool rnd = false;
@@ -556,17 +756,13 @@ int main()
                 if (t.size() != k + 1 + n)
                     throw vp::ParseError("arity");
             };
-            if (c.path.empty())
-            {
-                std::cout << "bad-op\n";
-                continue;
-            }
             auto obj = makeObj(c, objName);
             // goal: the scripted goal states, or the last state of the path
             auto goal = std::make_shared<ob::GoalStates>(c.si);
             {
                 ob::State *s = c.si->allocState();
-                const auto &gs = c.goals.empty() ? std::vector<std::vector<std::string>>{c.path.back()} : c.goals;
+                const auto &gs = !c.goals.empty() ? c.goals : c.path.empty() ? std::vector<std::vector<std::string>>{} :
+                                                                                  std::vector<std::vector<std::string>>{c.path.back()};
                 for (const auto &g : gs)
                 {
                     size_t i = 0;
@@ -625,12 +821,16 @@ int main()
                 nargs(2 + n * c.w);
                 auto sc = std::make_shared<SampleScript>();
                 c.mv->rec = false;
-                extra = " iv " + std::to_string(n + 2);
+                const bool nonEmpty = p.getStateCount() > 0;
+                extra = " iv " + std::to_string(n + (nonEmpty ? 2 : 0));
                 auto addIv = [&](const ob::State *st) {
                     extra += " " + vp::showState(c.space, st) + (c.si->isValid(st) ? " 1" : " 0");
                 };
-                addIv(p.getState(0));
-                addIv(p.getState(p.getStateCount() - 1));
+                if (nonEmpty)
+                {
+                    addIv(p.getState(0));
+                    addIv(p.getState(p.getStateCount() - 1));
+                }
                 for (unsigned long long j = 0; j < n; ++j)
                 {
                     ob::State *st = c.si->allocState();
@@ -639,7 +839,7 @@ int main()
                     sc->states.push_back(st);
                     addIv(st);
                 }
-                sc->dflt = c.si->cloneState(p.getState(0));
+                sc->dflt = p.getStateCount() > 0 ? c.si->cloneState(p.getState(0)) : c.si->allocState();
                 c.space->setStateSamplerAllocator(
                     [sc](const ob::StateSpace *sp) { return std::make_shared<ScriptedSampler>(sp, sc); });
                 c.mv->rec = true;
@@ -700,7 +900,7 @@ int main()
                     vp::parseStateInto(c.space.get(), st, t, i);
                     sc->states.push_back(st);
                 }
-                sc->dflt = c.si->cloneState(p.getState(0));
+                sc->dflt = p.getStateCount() > 0 ? c.si->cloneState(p.getState(0)) : c.si->allocState();
                 c.space->setStateSamplerAllocator(
                     [sc](const ob::StateSpace *sp) { return std::make_shared<ScriptedSampler>(sp, sc); });
                 ret = ps2.perturbPath(p, argF(2), argN(3), argN(4), argF(5));
